@@ -262,6 +262,10 @@ def parseCfg (c : Case) (toks : List String) : Case :=
 
 structure KRes where
   ok : Bool
+  /-- model-side event: some receive buffer was full (advertised window closed) -/
+  closedWin : Bool := false
+  /-- model-side event: a handshake completed on a TCB that had already retransmitted its SYN / SYN-ACK -/
+  hsRetx : Bool := false
   line : Nat := 0
   want : String := ""
   got : String := ""
@@ -269,12 +273,24 @@ structure KRes where
 
 def replay (cfg : Cfg) (c : Case) : KRes := Id.run do
   let mut s := Sys.init cfg c.hosts
+  let mut closedWin := false
+  let mut hsRetx := false
   for r in c.ops do
     match r.op with
     | none => return { ok := false, line := r.line, want := "<unparsable op>", got := r.text }
     | some op =>
       let (s', obs) := s.step op
+      if !hsRetx then
+        hsRetx := (s.kernels.zip s'.kernels).any fun (k, k') => k.sockets.any fun e => match e.2.tcb with
+          | some t => t.isHandshake && t.retxAttempts > 0 && (match k'.getTcb e.1 with
+              | some t' => !t'.isHandshake && t'.state != .closed
+              | none => false)
+          | none => false
       s := s'
+      if !closedWin then
+        closedWin := s.kernels.any fun k => k.sockets.any fun e => match e.2.tcb with
+          | some t => t.state != .closed && decide (t.recvBuf.length ≥ cfg.recvCap)
+          | none => false
       let mine := (obs.map fmtObs).toArray
       if mine != r.obs then
         let idx := (List.range (max mine.size r.obs.size)).find? fun i => mine[i]? != r.obs[i]?
@@ -282,11 +298,12 @@ def replay (cfg : Cfg) (c : Case) : KRes := Id.run do
         return { ok := false, line := r.line + 1 + i, want := (mine[i]?).getD "<nothing>", got := (r.obs[i]?).getD "<nothing>" }
   if c.panic.isSome then
     return { ok := false, line := (c.ops.back?.map (·.line)).getD 0, want := "<no panic>", got := s!"panic {c.panic.getD ""}" }
-  return { ok := true }
+  return { ok := true, closedWin := closedWin, hsRetx := hsRetx }
 
 def fixedVariants (cfg : Cfg) : List Cfg :=
   [ { cfg with fixReack := true }, { cfg with fixWinUpdate := true }, { cfg with fixReapOrphan := true },
-    { cfg with fixReack := true, fixWinUpdate := true, fixReapOrphan := true } ]
+    { cfg with fixHsReset := true },
+    { cfg with fixReack := true, fixWinUpdate := true, fixReapOrphan := true, fixHsReset := true } ]
 
 /-! ### O: oracles on the implementation's observations -/
 
@@ -374,7 +391,7 @@ structure ORes where
   fail : Option String := none
   pattern : String := "none"
 
-def oracle (prop : String) (c : Case) (h : Spec.History) : ORes :=
+def oracle (prop : String) (c : Case) (h : Spec.History) (closedWin hsRetx : Bool) : ORes :=
   if let some p := c.panic then { fail := some s!"implementation panicked: {p}" } else
   match prop with
   | "C06" =>
@@ -384,8 +401,8 @@ def oracle (prop : String) (c : Case) (h : Spec.History) : ORes :=
       if c.live then
         match Spec.c06Liveness c.cfg h with
         | some m =>
-          let pat := if patZeroWindow h then "F-C06-2" else if patLostHandshakeAck h then "F-C06-3"
-                     else if patLostPureAck h then "F-C06-1" else "none"
+          let pat := if closedWin then "F-C06-2" else if patLostHandshakeAck h then "F-C06-3"
+                     else if patLostPureAck h then "F-C06-1" else if hsRetx then "F-C06-5" else "none"
           { fail := some m, pattern := pat }
         | none => {}
       else {}
@@ -396,7 +413,7 @@ def oracle (prop : String) (c : Case) (h : Spec.History) : ORes :=
       match Spec.c13Check c.cfg h with
       | some m =>
         let pat := if patOrphanChild h then "F-C13-1" else if patLostRst h then "F-C13-2"
-                   else if patZeroWindow h then "F-C13-3" else "none"
+                   else if closedWin then "F-C13-3" else "none"
         { fail := some m, pattern := pat }
       | none => {}
   | "C16" =>
@@ -477,7 +494,7 @@ def processCase (prop : String) (c : Case) : IO (Bool × Bool) := do
       | some _ => (true, "fixed", k0)
       | none => (false, "-", k0)
   let h := history c
-  let o := oracle prop c h
+  let o := oracle prop c h (kOk && k0.closedWin) (kOk && k0.hsRetx)
   let cov := covTags c h
   let detail :=
     (if kOk then "" else s!"K line {kr.line}: model={kr.want} | impl={kr.got} ") ++
